@@ -16,7 +16,7 @@
 #define LIMIT 2000000
 enum { GRAFT, PRUNE, SPLIT, PARENT, APPEND, POP, CHAINAPP, NPRIM };
 static const char * NAMES[NPRIM] = { "prune_graft", "prune", "split", "new_parent", "append_child", "pop_link", "chain_append" };
-static long calls[NPRIM], pre_ok[NPRIM], post_fail[NPRIM], degenerate;
+static long calls[NPRIM], pre_ok[NPRIM], post_fail[NPRIM], degenerate, parent_of_non_head;
 
 /* the chain around x: prev links back to a head whose prev is NULL, next links to an end; neighbours point at each other */
 static int chain_ok(token * x, token ** head, token ** end, long * len) {
@@ -108,6 +108,7 @@ token * __wrap_token_new_parent(token * child, unsigned short type) {
 	calls[PARENT]++;
 	int pre = 0; token * end = NULL;
 	if (child && forward_ok(child, &end)) pre = 1;
+	if (child && child->prev) parent_of_non_head++;      /* outside the history theorem: clearing prev leaves the old predecessor pointing here */
 	token * r = __real_token_new_parent(child, type);
 	if (pre) {
 		pre_ok[PARENT]++;
@@ -177,7 +178,7 @@ int main(void) {
 		if (nf < 3) { printf("\n"); fflush(stdout); free(line); continue; }
 		unsigned long ext = strtoul(f[0], 0, 10); int fmt = atoi(f[1]);
 		size_t len; char * src = h_unhex(f[2], &len);
-		memset(calls, 0, sizeof calls); memset(pre_ok, 0, sizeof pre_ok); memset(post_fail, 0, sizeof post_fail); degenerate = 0;
+		memset(calls, 0, sizeof calls); memset(pre_ok, 0, sizeof pre_ok); memset(post_fail, 0, sizeof post_fail); degenerate = 0; parent_of_non_head = 0;
 		mmd_engine * e = mmd_engine_create_with_string(src, ext);
 		mmd_engine_parse_string(e);
 		if (fmt >= 0) {
@@ -186,7 +187,7 @@ int main(void) {
 			d_string_free(out, true);
 		}
 		for (int i = 0; i < NPRIM; i++) printf("%s:%ld:%ld:%ld ", NAMES[i], calls[i], pre_ok[i], post_fail[i]);
-		printf("degenerate_graft:%ld\n", degenerate); fflush(stdout);
+		printf("degenerate_graft:%ld new_parent_of_non_head:%ld\n", degenerate, parent_of_non_head); fflush(stdout);
 		mmd_engine_free(e, true);
 		free(src); free(line);
 		token_pool_drain(); token_pool_init();
